@@ -179,11 +179,11 @@ impl Future for YieldOnce {
 
 impl JournalStore {
     async fn point(&self, kind: OpKind) -> Result<(), RandomAccessError> {
-        let y = self.w.lock().unwrap().yield_all;
+        let y = self.w.lock().unwrap_or_else(|e| e.into_inner()).yield_all;
         if y {
             YieldOnce(false).await;
         }
-        let mut w = self.w.lock().unwrap();
+        let mut w = self.w.lock().unwrap_or_else(|e| e.into_inner());
         let k = w.nops;
         w.nops += 1;
         let tag = w.cur_tag;
@@ -202,7 +202,7 @@ impl JournalStore {
 impl RandomAccess for JournalStore {
     async fn write(&mut self, offset: u64, data: &[u8]) -> Result<(), RandomAccessError> {
         self.point(OpKind::Write).await?;
-        let mut w = self.w.lock().unwrap();
+        let mut w = self.w.lock().unwrap_or_else(|e| e.into_inner());
         let j = JOp::W {
             s: self.id,
             off: offset,
@@ -214,7 +214,7 @@ impl RandomAccess for JournalStore {
     }
     async fn read(&mut self, offset: u64, length: u64) -> Result<Vec<u8>, RandomAccessError> {
         self.point(OpKind::Read).await?;
-        let w = self.w.lock().unwrap();
+        let w = self.w.lock().unwrap_or_else(|e| e.into_inner());
         let f = &w.files[self.id];
         if offset.saturating_add(length) > f.len() as u64 {
             return Err(RandomAccessError::OutOfBounds {
@@ -227,7 +227,7 @@ impl RandomAccess for JournalStore {
     }
     async fn del(&mut self, offset: u64, length: u64) -> Result<(), RandomAccessError> {
         self.point(OpKind::Del).await?;
-        let mut w = self.w.lock().unwrap();
+        let mut w = self.w.lock().unwrap_or_else(|e| e.into_inner());
         let flen = w.files[self.id].len() as u64;
         if offset > flen {
             return Err(RandomAccessError::OutOfBounds {
@@ -250,7 +250,7 @@ impl RandomAccess for JournalStore {
     }
     async fn truncate(&mut self, length: u64) -> Result<(), RandomAccessError> {
         self.point(OpKind::Truncate).await?;
-        let mut w = self.w.lock().unwrap();
+        let mut w = self.w.lock().unwrap_or_else(|e| e.into_inner());
         let j = JOp::T {
             s: self.id,
             len: length,
@@ -261,7 +261,7 @@ impl RandomAccess for JournalStore {
     }
     async fn len(&mut self) -> Result<u64, RandomAccessError> {
         self.point(OpKind::Len).await?;
-        let w = self.w.lock().unwrap();
+        let w = self.w.lock().unwrap_or_else(|e| e.into_inner());
         Ok(w.files[self.id].len() as u64)
     }
     async fn is_empty(&mut self) -> Result<bool, RandomAccessError> {
@@ -284,6 +284,11 @@ pub fn store_id(s: &Store) -> usize {
 /// A `Storage` whose four stores are `JournalStore`s over `w`. Uses only the public
 /// `Storage::open` callback.
 pub async fn storage_async(w: &Shared) -> Storage {
+    storage_async_ow(w, false).await
+}
+
+/// `overwrite = true`: Storage::open empties the four stores first.
+pub async fn storage_async_ow(w: &Shared, overwrite: bool) -> Storage {
     let w = w.clone();
     Storage::open(
         move |s: Store| {
@@ -295,7 +300,7 @@ pub async fn storage_async(w: &Shared) -> Storage {
                 }) as Box<dyn StorageTraits + Send>)
             })
         },
-        false,
+        overwrite,
     )
     .await
     .expect("Storage::open over JournalStore cannot fail")
@@ -306,15 +311,15 @@ pub fn storage(w: &Shared) -> Storage {
 }
 
 pub fn image_of(w: &Shared) -> Image {
-    w.lock().unwrap().files.clone()
+    w.lock().unwrap_or_else(|e| e.into_inner()).files.clone()
 }
 
 pub fn journal_len(w: &Shared) -> usize {
-    w.lock().unwrap().journal.len()
+    w.lock().unwrap_or_else(|e| e.into_inner()).journal.len()
 }
 
 pub fn nops(w: &Shared) -> u64 {
-    w.lock().unwrap().nops
+    w.lock().unwrap_or_else(|e| e.into_inner()).nops
 }
 
 /// 128-bit fingerprint (two independent SipHash-1-3 passes) of arbitrary byte chunks.
